@@ -174,9 +174,39 @@ def rdflib_graph(ts):
 RDFLIB_FORMATS = {"turtle": "turtle", "xml": "xml", "json-ld": "json-ld", "n3": "n3", "nt": "nt"}
 
 
+def jsonld_text(ts):
+    """flattened, expanded JSON-LD written here (rdflib 6.0.2's JSON-LD serialiser drops blank-node cycles)"""
+    nodes = {}
+    for s, p, o in ts:
+        node = nodes.setdefault(s[1], {"@id": s[1]})
+        if o[0] in "IB":
+            v = {"@id": o[1]}
+        elif o[2] == XSD + "string":
+            v = {"@value": o[1]}
+        elif o[2] == LANGSTRING:
+            v = {"@value": o[1], "@language": o[3] if len(o) > 3 else "en"}
+        else:
+            v = {"@value": o[1], "@type": o[2]}
+        node.setdefault(p, []).append(v)
+    return json.dumps(list(nodes.values()), indent=1, ensure_ascii=False)
+
+
+class LossySerialisation(Exception):
+    pass
+
+
 def rdflib_text(ts, fmt):
-    out = rdflib_graph(ts).serialize(format=RDFLIB_FORMATS[fmt])
-    return out.decode("utf-8") if isinstance(out, bytes) else out
+    """the document rdflib writes for the graph; checked to denote the graph (a harness precondition)"""
+    import rdflib
+    if fmt == "json-ld":
+        out = jsonld_text(ts)
+    else:
+        out = rdflib_graph(ts).serialize(format=RDFLIB_FORMATS[fmt])
+        out = out.decode("utf-8") if isinstance(out, bytes) else out
+    back = rdflib.Graph().parse(data=out, format=RDFLIB_FORMATS[fmt])
+    if len(back) != len(set(ts)):
+        raise LossySerialisation(fmt)
+    return out
 
 
 def partition(items, r, kmax=4, allow_empty=True):
@@ -227,6 +257,7 @@ CHANNELS = [
     ("nt_raw", "nt", None, "raw"),
     ("nt_raw_nofinalnl", "nt", None, "raw-nonl"),
     ("nt_file", "nt", None, "file"),
+    ("nt_file_blankline", "nt", None, "file-blank"),
     ("nt_gz", "nt", "gz", "file"),
     ("nt_xz", "nt", "xz", "file"),
     ("nt_zip", "nt", "zip", "zip1"),
@@ -236,6 +267,7 @@ CHANNELS = [
     ("nt_zips", "nt", "zip", "zips"),
     ("tsv_raw", "tsv_spo", None, "raw"),
     ("tsv_file", "tsv_spo", None, "file"),
+    ("tsv_file_blankline", "tsv_spo", None, "file-blank"),
     ("tsv_xz", "tsv_spo", "xz", "file"),
     ("tsv_files", "tsv_spo", None, "files"),
     ("tsv_zip_members", "tsv_spo", "zip", "zipn"),
@@ -293,6 +325,7 @@ def build_channel(ch, ts, r, d):
         parts = [ts]
     docs = [doc_for(fmt, p).encode("utf-8") for p in parts]
     info["parts"] = [len(p) for p in parts]
+    info["part_triples"] = parts
 
     def stored_file(i, data, cmode):
         path = os.path.join(d, "%s_%d.%s%s" % (name, i, ext, "" if cmode is None else "." + cmode))
@@ -310,6 +343,14 @@ def build_channel(ch, ts, r, d):
         kw["raw_graph"] = doc.decode("utf-8")
         info["kind"], info["src"] = "raw", [doc]
         info["pieces"] = [("raw", doc)]
+    elif layout == "file-blank":
+        lines = docs[0].split(b"\n")
+        j = r.randint(0, max(0, len(lines) - 1))
+        doc = b"\n".join(lines[:j] + [r.choice([b"", b"  ", b"\t"])] + lines[j:])
+        path, st = stored_file(0, doc, cm)
+        kw["graph_file_input"] = path
+        info["kind"], info["src"] = "file", [st]
+        info["pieces"] = [("text", doc)]
     elif layout == "file":
         path, st = stored_file(0, docs[0], cm)
         kw["graph_file_input"] = path
@@ -528,10 +569,11 @@ _MB = None
 
 
 def mb():
+    """one model process per OS process (a forked worker must not share its parent's pipe)"""
     global _MB
-    if _MB is None:
-        _MB = core.ModelBin()
-    return _MB
+    if _MB is None or _MB[0] != os.getpid():
+        _MB = (os.getpid(), core.ModelBin())
+    return _MB[1]
 
 
 def _opt(x):
@@ -650,9 +692,9 @@ def same_up_to_bnodes(a, b):
         return sorted(a) == target
 
     def sig(ts, x):
-        return sorted((("s", t[2], t[3], t[4] if t[3] != "B" else "", t[5]) if t[0] == "B" and t[1] == x else None,
-                       ("o", t[2], t[0], t[1] if t[0] != "B" else "") if t[3] == "B" and t[4] == x else None)
-                      for t in ts if (t[0] == "B" and t[1] == x) or (t[3] == "B" and t[4] == x))
+        return sorted(((("s", t[2], t[3], t[4] if t[3] != "B" else "", t[5]) if t[0] == "B" and t[1] == x else None,
+                        ("o", t[2], t[0], t[1] if t[0] != "B" else "") if t[3] == "B" and t[4] == x else None)
+                      for t in ts if (t[0] == "B" and t[1] == x) or (t[3] == "B" and t[4] == x)), key=repr)
     sa = {x: repr(sig(a, x)) for x in ba}
     sb = {x: repr(sig(b, x)) for x in bb}
     if sorted(sa.values()) != sorted(sb.values()):
@@ -675,3 +717,646 @@ def same_up_to_bnodes(a, b):
         if img == target:
             return True
     return False
+
+
+# --------------------------------------------------------------------------
+# bounded-exhaustive correspondences of the plumbing
+# --------------------------------------------------------------------------
+
+BYTE_ALPHABET = [b"a", b" ", b"\n", b"\r", b"\t", b"\xc3", b"\xa9", b"\xe0", b"\xa0", b"\xed"]
+CHAR_ALPHABET = ["a", " ", "\n", "\r", "\t", "é", "."]
+
+
+def _real_lines(kind, data, path):
+    """('ok', [bytes]) | ('err', name) from the real line reader"""
+    from shexer.io.line_reader.file_line_reader import FileLineReader
+    from shexer.io.line_reader.raw_string_line_reader import RawStringLineReader
+    from shexer.io.line_reader.gz_line_reader import GzFileLineReader
+    from shexer.io.line_reader.xz_line_reader import XzFileLineReader
+    from shexer.io.line_reader.zip_file_line_reader import ZipFileLineReader
+    try:
+        if kind == "raw":
+            lr = RawStringLineReader(raw_string=data.decode("utf-8"))
+        elif kind == "text":
+            with open(path, "wb") as f:
+                f.write(data)
+            lr = FileLineReader(source_file=path)
+        elif kind == "gz":
+            with gzip.open(path, "wb") as f:
+                f.write(data)
+            lr = GzFileLineReader(gz_file=path)
+        elif kind == "xz":
+            with lzma.open(path, "wb") as f:
+                f.write(data)
+            lr = XzFileLineReader(xz_file=path)
+        else:
+            with zipfile.ZipFile(path, "w") as z:
+                z.writestr("m", data)
+            lr = ZipFileLineReader(zip_archive=zipfile.ZipFile(path, "r"), zip_target="m")
+        return ("ok", [ln.encode("utf-8") for ln in lr.read_lines()])
+    except UnicodeDecodeError:
+        return ("err", "UnicodeDecodeError")
+    except Exception as e:  # noqa: BLE001
+        return ("err", type(e).__name__)
+
+
+def _lines_chunk(chunk):
+    d = workdir()
+    path = os.path.join(d, "lr_%d" % os.getpid())
+    out = []
+    model = model_lines([({"raw": "raw", "text": "text"}.get(k, "bytes"), data) for k, data in chunk])
+    for (k, data), m in zip(chunk, model):
+        r = guarded(_real_lines, k, data, path)
+        if r != (m[0], m[1] if m[0] == "err" else list(m[1])):
+            out.append({"reader": k, "bytes": data.hex(), "impl": [r[0], [x.hex() for x in r[1]] if r[0] == "ok" else r[1]],
+                        "model": [m[0], [x.hex() for x in m[1]] if m[0] == "ok" else m[1]]})
+    return (len(chunk), out)
+
+
+def check_line_readers(tier):
+    n = 5 if tier == "thorough" else 4
+    items = []
+    for ln in range(n + 1):
+        for tup_ in itertools.product(BYTE_ALPHABET, repeat=ln):
+            data = b"".join(tup_)
+            items.append(("text", data))
+            items.append(("gz", data))
+            if ln <= 3:
+                items.append(("xz", data))
+                items.append(("zip", data))
+    for ln in range(n + 2):
+        for tup_ in itertools.product(CHAR_ALPHABET, repeat=ln):
+            items.append(("raw", "".join(tup_).encode("utf-8")))
+    chunks = [items[i:i + 500] for i in range(0, len(items), 500)]
+    res = core.pool_map(_lines_chunk, chunks, chunksize=1)
+    bad = [b for _, bs in res for b in bs]
+    return sum(n_ for n_, _ in res), bad
+
+
+TSV_TOKENS = ["<http://e/a>", "<http://e/p>", "_:b1", '"x"', '"a b"@en', '"5"^^<http://www.w3.org/2001/XMLSchema#integer>',
+              '"v"^^xsd:date', '"w"^^<http://e/dt>', "<http://e/a", "abc", "12", "1.50", "[]", "", '"q', " <http://e/s> ",
+              '"a@b"', '"x"^^foo']
+
+
+def _tsv_real(line):
+    rr = real_read("tsv", [line])
+    if rr[0] == "ok":
+        return ("ok", rr[1], rr[2], rr[3])
+    return ("err", rr[0])
+
+
+def _tsv_chunk(lines):
+    out = mb().call("c08_tsv", [[ln] for ln in lines])
+    bad = []
+    i = 0
+    for ln in lines:
+        n = int(out[i][1])
+        m = parse_rd_rows(out[i + 1:i + 1 + n])
+        i += 1 + n
+        r = _tsv_real(ln)
+        if m != r:
+            bad.append({"line": ln, "impl": r, "model": m})
+    return (len(lines), bad)
+
+
+def check_tsv_reader(tier, rnd):
+    lines = []
+    for a, b, c in itertools.product(TSV_TOKENS, repeat=3):
+        lines.append("%s\t%s\t%s" % (a, b, c))
+    for a, b in itertools.product(TSV_TOKENS, repeat=2):
+        lines.append("%s\t%s" % (a, b))
+        lines.append("%s\t%s\t<http://e/o>\t." % (a, b))
+    for _ in range(3000 if tier == "thorough" else 600):
+        k = rnd.choice([3, 3, 3, 1, 2, 4])
+        toks = [rnd.choice(TSV_TOKENS) for _ in range(k)]
+        lines.append(rnd.choice(["", " ", "\t"]) + "\t".join(toks) + rnd.choice(["", "\n", " \n", "\r\n", "\t"]))
+    chunks = [lines[i:i + 400] for i in range(0, len(lines), 400)]
+    res = core.pool_map(_tsv_chunk, chunks, chunksize=1)
+    bad = [b for _, bs in res for b in bs]
+    # whole documents: the counters add up, an exception ends the stream
+    docs = []
+    good = [ln for ln in lines if _tsv_real(ln)[0] == "ok"][:4000]
+    for _ in range(200 if tier == "thorough" else 60):
+        docs.append([rnd.choice(good) for _ in range(rnd.randint(0, 6))])
+    out = mb().call("c08_tsv", docs)
+    i = 0
+    for doc in docs:
+        n = int(out[i][1])
+        m = parse_rd_rows(out[i + 1:i + 1 + n])
+        i += 1 + n
+        rr = real_read("tsv", doc)
+        r = ("ok", rr[1], rr[2], rr[3]) if rr[0] == "ok" else ("err", rr[0])
+        if m != r:
+            bad.append({"doc": doc, "impl": r, "model": m})
+    return len(lines) + len(docs), bad
+
+
+FORMATS_ALL = ["nt", "tsv_spo", "n3", "turtle", "xml", "json-ld", "turtle_iter", "bogus"]
+COMPR_ALL = [None, "gz", "xz", "zip"]
+KINDS_ALL = [("file", 1), ("files", 0), ("files", 1), ("files", 2), ("files", 3), ("raw", 0), ("url", 0), ("urls", 2),
+             ("graph", 0)]
+ERRMAP = {"ValueError": "ValueError", "TypeError": "TypeError"}
+
+
+def check_dispatch():
+    """every (format, compression, source kind): class of the yielder the real factory returns vs the model"""
+    from shexer.utils.factories.triple_yielders_factory import get_triple_yielder
+    import rdflib
+    d = workdir()
+    zp = os.path.join(d, "disp.zip")
+    write_zip(zp, [("m0.nt", b""), ("m1.nt", b"")])
+    plain = os.path.join(d, "disp.nt")
+    with open(plain, "wb") as f:
+        f.write(b"")
+    g = rdflib.Graph()
+    rows, real = [], []
+    for fmt in FORMATS_ALL:
+        for cm in COMPR_ALL:
+            for kind, n in KINDS_ALL:
+                path = zp if cm == "zip" else plain
+                kw = {"input_format": fmt, "compression_mode": cm}
+                if kind == "file":
+                    kw["source_file"] = path
+                elif kind == "files":
+                    kw["list_of_source_files"] = [path] * n
+                elif kind == "raw":
+                    kw["raw_graph"] = ""
+                elif kind == "url":
+                    kw["url_input"] = "file://" + plain
+                elif kind == "urls":
+                    kw["list_of_url_input"] = ["file://" + plain] * n
+                else:
+                    kw["rdflib_graph"] = g
+                try:
+                    y = guarded(get_triple_yielder, **kw)
+                    r = ["ok", type(y).__name__]
+                except Exception as e:  # noqa: BLE001
+                    r = ["err", type(e).__name__]
+                rows.append([fmt, _opt(cm), kind, str(n)])
+                real.append(r)
+    model = mb().call("c08_dispatch", rows)
+    bad = [{"combo": row, "impl": r, "model": m} for row, r, m in zip(rows, real, model) if r != m]
+    dist = {}
+    for r in real:
+        dist[r[1]] = dist.get(r[1], 0) + 1
+    return len(rows), bad, dist, list(zip(rows, real))
+
+
+def check_rdflib_terms():
+    import rdflib
+    from shexer.io.graph.yielder.rdflib_triple_yielder import RdflibTripleYielder
+    y = RdflibTripleYielder(rdflib_graph=rdflib.Graph())
+    lexes = ["v", "two words", "a@b.org", "@", 'q"uote', 'x"^^y', '"^^xsd:int', 'a"^^<http://e/dt>', "", "café",
+             'e"@en', "xsd:string", 'p"^^rdf:x', 'k"^^dt:second', 'g"^^geo:wkt']
+    terms, rows = [], []
+    for lex in lexes:
+        for dt in (None, XSD + "string", XSD + "integer", "http://e/dt"):
+            terms.append(rdflib.Literal(lex, datatype=rdflib.URIRef(dt)) if dt else rdflib.Literal(lex))
+            rows.append(["L", lex, _opt(dt), "N"])
+        for lang in ("en", "en-GB"):
+            terms.append(rdflib.Literal(lex, lang=lang))
+            rows.append(["L", lex, "N", _opt(lang)])
+    terms += [rdflib.URIRef("http://e/a"), rdflib.BNode("b0"), rdflib.Variable("x")]
+    rows += [["U", "http://e/a", "N", "N"], ["B", "b0", "N", "N"], ["O", "", "N", "N"]]
+    real = []
+    for t in terms:
+        try:
+            o = guarded(y._turn_rdflib_token_into_model_obj, t)
+            n = type(o).__name__
+            real.append(["ok", "L", str(o), o.elem_type] if n == "Literal" else ["ok", "I" if n == "IRI" else "B", o.iri, ""])
+        except Exception as e:  # noqa: BLE001
+            real.append(["err", type(e).__name__])
+    model = mb().call("c08_rdftok", rows)
+    bad = [{"term": row, "impl": r, "model": m} for row, r, m in zip(rows, real, model) if r != m]
+    return len(rows), bad
+
+
+# --------------------------------------------------------------------------
+# one generated graph through every channel
+# --------------------------------------------------------------------------
+
+def nontrivial_graph(ts):
+    sizes = pipe.class_sizes(ts, TAU)
+    return bool(sizes) and max(sizes.values()) >= 2 and any(p != TAU for _, p, _ in ts)
+
+
+def gen_case(seed, i):
+    r = random.Random(seed)
+    ts, stream = gen_case_graph(r, i)
+    cfg = pipe.switch_cfg(i)
+    cfg["thr"] = r.choice(pipe.thresholds_for(ts, r))
+    if i % 5 == 1:
+        cls = sorted(pipe.class_sizes(ts))
+        if cls:
+            cfg["all_classes"] = False
+            cfg["targets"] = r.sample(cls, r.randint(1, len(cls)))
+    if i % 6 == 2:
+        cfg["ns"] = [("http://ex.org/", "ex")]
+    return {"ts": ts, "cfg": cfg, "stream": stream, "seed": seed, "i": i}
+
+
+def run_case(case):
+    """-> compact result of one graph through all channels"""
+    from vp import pipeprops
+    ts, cfg = case["ts"], case["cfg"]
+    r = random.Random(case["seed"] ^ 0x5EED)
+    d = os.path.join(workdir(), "case_%d" % case["i"])
+    os.makedirs(d, exist_ok=True)
+    out = {"i": case["i"], "runs": 0, "spec_fail": [], "known": {}, "corr_fail": [], "assume_fail": [],
+           "tie_skipped": 0, "compared": 0, "excluded_bnode": 0, "corr_checked": 0, "run2_checked": 0,
+           "monitored": 0, "outcomes": {}, "vm": []}
+    try:
+        ref, rec = real_shaper({"raw_graph": pipe.nt_doc(ts)}, cfg)
+        out["runs"] += 1
+        e_ref = evidence(ref, cfg)
+        rcs = pipespec.tie_root_causes(ts, cfg)
+        bn = has_bnode_instance(ts)
+        at = has_at_plain(ts)
+        kin = kinded(ts)
+        for ch in CHANNELS:
+            name = ch[0]
+            try:
+                info = build_channel(ch, ts, r, d)
+            except LossySerialisation:
+                out["outcomes"]["skipped: rdflib serialiser lossy"] = out["outcomes"].get("skipped: rdflib serialiser lossy", 0) + 1
+                continue
+            res, rec = real_shaper(info["kw"], cfg)
+            out["runs"] += 1
+            oc = res[0] if res[0] == "ok" else res[1]
+            out["outcomes"][oc] = out["outcomes"].get(oc, 0) + 1
+            stable = channel_is_stable(ch)
+            line = channel_is_line(ch)
+            # ---- (i) oracle: evidence of the channel == evidence of the raw N-Triples reference
+            fails = []
+            if (res[0] == "ok") != (ref[0] == "ok"):
+                fails.append("outcome differs: reference %s, channel %s" % (ref[:2] if ref[0] != "ok" else "ok",
+                                                                              res[:3] if res[0] != "ok" else "ok"))
+            elif res[0] == "ok":
+                if bn and not stable:
+                    out["excluded_bnode"] += 1
+                    if compare_evidence(e_ref, evidence(res, cfg), rcs, cfg):
+                        out["known"]["rc_bnode_relabel_per_pass"] = out["known"].get("rc_bnode_relabel_per_pass", 0) + 1
+                else:
+                    out["compared"] += 1
+                    if rcs:
+                        out["tie_skipped"] += 1
+                    fails = compare_evidence(e_ref, evidence(res, cfg), rcs, cfg)
+            elif res[1] != ref[1]:
+                fails.append("exception class differs: reference %s, channel %s" % (ref[1], res[1]))
+            if fails:
+                if ch[1] == "tsv_spo" and ch[3] == "file-blank" and res[0] == "err" and res[1] == "TypeError":
+                    out["known"]["rc_tsv_discarded_line_crashes"] = out["known"].get("rc_tsv_discarded_line_crashes", 0) + 1
+                elif at and not line:
+                    out["known"]["rc_at_in_plain_literal"] = out["known"].get("rc_at_in_plain_literal", 0) + 1
+                else:
+                    out["spec_fail"].append({"channel": name, "what": fails[0][:600], "partition": info["parts"]})
+            # ---- the graph is read twice by two independently built yielders
+            if res[0] == "ok" and len(rec) != 2:
+                out["corr_fail"].append({"channel": name, "what": "%d yielders were built, the model says 2" % len(rec)})
+            # ---- (ii) correspondence, line-based channels: the whole stream with the real reader plugged in
+            if line:
+                fam = LINE_FAMILIES[ch[1]]
+                (st, cls), mrd = model_channel(info, fam)
+                ry = real_yielder(info)
+                out["corr_checked"] += 1
+                if ry[0] == "ok":
+                    ok = (st == "cls" and cls == ry[1] and mrd[0] == "ok" and mrd[1] == ry[2] and mrd[2] == ry[3]
+                          and mrd[3] == ry[4])
+                else:
+                    ok = mrd[0] == "err"
+                if not ok:
+                    out["corr_fail"].append({"channel": name, "what": "stream / counters / class of the yielder",
+                                             "impl": [ry[0], ry[1]] + ([ry[2], ry[3], ry[4][:6]] if ry[0] == "ok" else []),
+                                             "model": [st, cls, mrd[0]] + ([mrd[1], mrd[2], mrd[3][:6]] if mrd[0] == "ok" else [mrd[1]]),
+                                             "partition": info["parts"]})
+                elif mrd[0] == "ok":
+                    for k_, p_ in enumerate(rec):
+                        if p_["done"] and (p_["triples"] != mrd[3] or p_["cls"] != cls):
+                            out["corr_fail"].append({"channel": name, "what": "pass %d of the Shaper saw another stream "
+                                                     "than the model's channel" % (k_ + 1)})
+                # monitored assumption: the codecs are the identity on content
+                for st_, data in info["gz"]:
+                    out["monitored"] += 1
+                    if gzip.decompress(st_) != data:
+                        out["assume_fail"].append({"channel": name, "what": "gunzip(stored) != content"})
+                for st_, data in info["xz"]:
+                    out["monitored"] += 1
+                    if lzma.decompress(st_) != data:
+                        out["assume_fail"].append({"channel": name, "what": "unxz(stored) != content"})
+            else:
+                # ---- monitored assumption, rdflib channels: a permutation of G up to an injective bnode renaming
+                for k_, p_ in enumerate(rec):
+                    if not p_["done"]:
+                        continue
+                    out["monitored"] += 1
+                    if at:
+                        continue        # finding C08-F1 changes the datatype on these channels
+                    # several documents: each one is parsed on its own (its own permutation and renaming)
+                    segs, pos, good = [], 0, sum(info["parts"]) == len(p_["triples"])
+                    for part in info["part_triples"]:
+                        segs.append((kinded(part), p_["triples"][pos:pos + len(part)]))
+                        pos += len(part)
+                    if not good or not all(same_up_to_bnodes(a_, b_) for a_, b_ in segs):
+                        out["assume_fail"].append({"channel": name, "what": "pass %d did not deliver, document by document, "
+                                                   "a permutation of the triples up to a blank-node renaming" % (k_ + 1),
+                                                   "delivered": p_["triples"][:8], "expected": kin[:8]})
+            # ---- the pipeline over the two recorded streams (Model.Channels.run_shexc2)
+            if len(rec) == 2 and all(p_["done"] for p_ in rec) and res[0] == "ok":
+                m2 = model_run2(rec[0]["triples"], rec[1]["triples"], cfg)
+                out["run2_checked"] += 1
+                if pipeprops.proj_figures(m2) != pipeprops.proj_figures(res):
+                    out["corr_fail"].append({"channel": name, "what": "run_shexc2 over the two recorded streams differs "
+                                             "from the Shaper's output", "model": list(m2)[:2], "impl": list(res)[:2]})
+        out["nontrivial"] = nontrivial_graph(ts)
+        out["doc"] = pipe.nt_doc(ts)
+    except Exception as e:  # noqa: BLE001
+        import traceback
+        out["internal"] = "case %d crashed: %s %s" % (case["i"], type(e).__name__, traceback.format_exc()[-800:])
+    finally:
+        shutil.rmtree(d, ignore_errors=True)
+    return out
+
+
+# --------------------------------------------------------------------------
+# pinned reproducers of the known findings
+# --------------------------------------------------------------------------
+
+def replay_finding(f):
+    """-> True when the finding still reproduces on the real code"""
+    rp = f["reproducer"]
+    kind = rp["kind"]
+    d = os.path.join(workdir(), "finding")
+    os.makedirs(d, exist_ok=True)
+    try:
+        if kind == "channel-evidence":
+            ts = pipeprops_tuplify(rp["ts"])
+            cfg = rp["cfg"]
+            ref, _ = real_shaper({"raw_graph": pipe.nt_doc(ts)}, cfg)
+            ch = [c for c in CHANNELS if c[0] == rp["channel"]][0]
+            info = build_channel(ch, ts, random.Random(1), d)
+            res, _ = real_shaper(info["kw"], cfg)
+            if ref[0] != "ok" or res[0] != "ok":
+                return False
+            return bool(compare_evidence(evidence(ref, cfg), evidence(res, cfg), set(), cfg))
+        if kind == "two-channels":
+            path = os.path.join(d, "doc")
+            with open(path, "w") as fh:
+                fh.write(rp["doc"])
+            a, _ = real_shaper({"raw_graph": rp["doc"], "input_format": rp["fmt"]}, pipe.base_cfg())
+            b, _ = real_shaper({"graph_file_input": path, "input_format": rp["fmt"]}, pipe.base_cfg())
+            return a[0] == "ok" and b[0] == "err" and b[1] == rp["expect_file"]
+        if kind == "shaper-exception":
+            import rdflib
+            kw = dict(rp["kwargs"])
+            if kw.pop("rdflib_graph_from_nt", None):
+                kw["rdflib_graph"] = rdflib.Graph().parse(data=rp["nt"], format="nt")
+            if kw.pop("url_graph_input_from_nt", None):
+                path = os.path.join(d, "f.nt")
+                with open(path, "w") as fh:
+                    fh.write(rp["nt"])
+                kw["url_graph_input"] = "file://" + path
+            if kw.pop("raw_graph_from_nt", None):
+                kw["raw_graph"] = rp["nt"]
+            res, _ = real_shaper(kw, pipe.base_cfg())
+            return res[0] == "err" and res[1] == rp["expect"]
+        return False
+    finally:
+        shutil.rmtree(d, ignore_errors=True)
+
+
+def pipeprops_tuplify(ts):
+    return [(tuple(s), p, tuple(o)) for s, p, o in ts]
+
+
+# --------------------------------------------------------------------------
+# the check
+# --------------------------------------------------------------------------
+
+def run(tier, seed, replay=None):
+    run_ = core.Run(PID, tier, seed)
+    bs = core.build(PID)
+    proofs_ok = core.proof_gate(run_, bs)
+    rnd = random.Random(seed)
+    findings = {f["id"]: f for f in core.load_findings(PID)}
+    known_rc = {f["root_cause_tag"]: fid for fid, f in findings.items()
+                if f.get("status") == "known" and f.get("root_cause_tag")}
+    os.makedirs(BASE, exist_ok=True)
+    t0 = time.time()
+    internal = []
+    static = {}
+    corr_static = []
+
+    if not bs.model_ok:
+        run_.notes.append("model binary unavailable: " + bs.model_log[-800:])
+
+    # ---- pinned reproducers first
+    for fid, f in findings.items():
+        if f.get("status") != "known" or "reproducer" not in f:
+            continue
+        try:
+            still = replay_finding(f)
+        except Exception as e:  # noqa: BLE001
+            still = False
+            run_.notes.append("replay of %s crashed: %s" % (fid, e))
+        if still:
+            run_.known_finding(fid, f["what"])
+        else:
+            run_.notes.append("finding %s no longer reproduces on its pinned input" % fid)
+
+    # ---- cases
+    if replay:
+        with open(replay) as fh:
+            rp = json.load(fh)
+        cases = []
+        if "case" in rp:
+            c = rp["case"]
+            cases = [{"ts": pipeprops_tuplify(c["ts"]), "cfg": c["cfg"], "stream": c.get("stream", 0), "seed": c["seed"],
+                      "i": c["i"]}]
+    else:
+        n = 3000 if tier == "thorough" else 150
+        cases = [gen_case(rnd.getrandbits(48), i) for i in range(n)]
+
+    results = []
+    if bs.model_ok:
+        if not replay:
+            try:
+                t1 = time.time()
+                n_lr, bad = check_line_readers(tier)
+                static["line_readers"] = {"cases": n_lr, "disagreements": len(bad), "exhaustive": True,
+                                          "rule": "every byte string of length <= %d over %r through FileLineReader and "
+                                                  "GzFileLineReader (length <= 3: Xz, Zip), every str of length <= %d over %r "
+                                                  "through RawStringLineReader" % (5 if tier == "thorough" else 4,
+                                                                                   [b.hex() for b in BYTE_ALPHABET],
+                                                                                   6 if tier == "thorough" else 5, CHAR_ALPHABET),
+                                          "wall_s": round(time.time() - t1, 1)}
+                corr_static += [("line readers (Model.Channels.lines_raw/lines_text/lines_bytes)", b) for b in bad[:3]]
+                t1 = time.time()
+                n_tsv, bad = check_tsv_reader(tier, rnd)
+                static["tsv_reader"] = {"cases": n_tsv, "disagreements": len(bad), "wall_s": round(time.time() - t1, 1),
+                                        "rule": "every 2- and 3-token line over %d tokens (well-formed and malformed), random "
+                                                "lines with edge white space, random documents" % len(TSV_TOKENS)}
+                corr_static += [("TSV reader (Model.Channels.read_tsv)", b) for b in bad[:3]]
+                n_d, bad, dist, table = check_dispatch()
+                static["dispatch"] = {"cases": n_d, "disagreements": len(bad), "exhaustive": True, "classes": dist,
+                                      "rule": "8 formats x 4 compression modes x 9 source kinds, class of the yielder "
+                                              "get_triple_yielder returns / exception class"}
+                corr_static += [("dispatch (Model.Channels.dispatch over Gen.Consts.c08_*)", b) for b in bad[:3]]
+                n_t, bad = check_rdflib_terms()
+                static["rdflib_terms"] = {"cases": n_t, "disagreements": len(bad)}
+                corr_static += [("rdflib term conversion (Model.Channels.turn_token)", b) for b in bad[:3]]
+            except Exception as e:  # noqa: BLE001
+                import traceback
+                internal.append("plumbing correspondence crashed: %s %s" % (type(e).__name__, traceback.format_exc()[-800:]))
+        results = core.pool_map(run_case, cases, chunksize=2)
+
+    spec_fail, corr_fail, assume_fail, known_hits = [], [], [], {}
+    tot = {"runs": 0, "compared": 0, "tie_skipped": 0, "excluded_bnode": 0, "corr_checked": 0, "run2_checked": 0,
+           "monitored": 0}
+    outcomes = {}
+    distinct = set()
+    for case, res in zip(cases, results):
+        if "internal" in res:
+            internal.append(res["internal"])
+            continue
+        for k in tot:
+            tot[k] += res[k]
+        for k, v in res["outcomes"].items():
+            outcomes[k] = outcomes.get(k, 0) + v
+        for rc, nhit in res["known"].items():
+            if rc in known_rc:
+                known_hits[known_rc[rc]] = known_hits.get(known_rc[rc], 0) + nhit
+            else:
+                spec_fail.append((case, {"channel": "?", "what": "root cause %s is not a listed known finding" % rc}))
+        for sf in res["spec_fail"]:
+            spec_fail.append((case, sf))
+        for cf in res["corr_fail"]:
+            corr_fail.append((case, cf))
+        for af in res["assume_fail"]:
+            assume_fail.append((case, af))
+        if res.get("nontrivial"):
+            distinct.add(res["doc"])
+
+    def case_payload(case, extra):
+        d = {"case": {"ts": [list(map(list, (s, o))) and [list(s), p, list(o)] for s, p, o in case["ts"]],
+                      "cfg": case["cfg"], "stream": case["stream"], "seed": case["seed"], "i": case["i"]},
+             "document": pipe.nt_doc(case["ts"])}
+        d.update(extra)
+        return d
+
+    for case, sf in spec_fail[:5]:
+        run_.violation("C08 fails on the implementation: channel %s vs raw N-Triples: %s" % (sf["channel"], sf["what"][:300]),
+                       case_payload(case, {"oracle_failure": sf}))
+    if not spec_fail:
+        if corr_fail or corr_static or assume_fail:
+            if corr_fail:
+                case, cf = corr_fail[0]
+                run_.violation("correspondence Model.Channels vs shexer's yielders no longer checks (channel %s: %s)" % (
+                    cf["channel"], cf["what"]),
+                    case_payload(case, {"broken": "correspondence Model.Channels.channel / run_shexc2 vs "
+                                                  "get_triple_yielder(...).yield_triples() / Shaper.shex_graph",
+                                        "first_disagreement": cf, "n_disagreements": len(corr_fail)}), failing_input=False)
+            elif corr_static:
+                what, b = corr_static[0]
+                run_.violation("correspondence of the %s no longer checks" % what,
+                               {"broken": "correspondence " + what, "first_disagreement": b,
+                                "n_disagreements": len(corr_static)}, failing_input=False)
+            else:
+                case, af = assume_fail[0]
+                run_.violation("monitored assumption of the C08 theorems no longer holds: %s" % af["what"],
+                               case_payload(case, {"broken": "assumption: " + af["what"], "detail": af}), failing_input=False)
+        elif not proofs_ok:
+            run_.violation("proof obligations of C08 no longer check",
+                           {"broken": "theorems of Props/C08.v: " + THEOREMS,
+                            "log": run_.notes[-1] if run_.notes else ""}, failing_input=False)
+        elif not bs.model_ok:
+            run_.violation("model no longer builds", {"broken": "Model/Entry extraction", "log": bs.model_log[-1500:]},
+                           failing_input=False)
+
+    # ---- vm_compute cross-check of a sample of the binary's answers
+    vm_n = 0
+    if bs.model_ok and not replay and cases:
+        try:
+            vcases = []
+            m = core.ModelBin()
+            rows = [[f, _opt(c), k, str(n_)] for f in ("nt", "turtle", "tsv_spo") for c in (None, "zip") for k, n_ in KINDS_ALL[:6]]
+            vcases.append(("c08_dispatch", rows, m.call("c08_dispatch", rows)))
+            rows = [["text", "a\r\nb \n\n c"], ["raw", "a\r\nb \n\n c"], ["bytes", b"caf\xc3\xa9\nx\xe0\n"], ["text", b"x\xe0\xa0y\n"]]
+            vcases.append(("c08_lines", rows, m.call("c08_lines", rows, raw=True)))
+            rows = [["%s\t%s\t%s" % (a, b, c)] for a, b, c in [rnd.sample(TSV_TOKENS, 3) for _ in range(12)]]
+            vcases.append(("c08_tsv", rows, m.call("c08_tsv", rows)))
+            for case in rnd.sample(cases, min(len(cases), 8 if tier == "thorough" else 3)):
+                g = kinded(case["ts"])
+                t = pipe.model_table([], case["cfg"])
+                for tag in ("T", "U"):
+                    t += [[tag] + list(x) for x in g]
+                vcases.append(("c08_run2", t, m.call("c08_run2", t)))
+                # a small multi-file channel with the real reader's answers
+                r = random.Random(case["seed"])
+                d = os.path.join(workdir(), "vm")
+                os.makedirs(d, exist_ok=True)
+                info = build_channel(("nt_files", "nt", None, "files"), case["ts"][:6], r, d)
+                lines = model_lines(info["pieces"])
+                table = [["cfg", "nt", "N", "files"], ["src"] + list(info["src"])]
+                for ln in lines:
+                    rr = real_read("nt", [b.decode("utf-8") for b in ln[1]])
+                    table.append(rd_row(ln[1], rr))
+                vcases.append(("c08_channel", table, m.call("c08_channel", table)))
+                shutil.rmtree(d, ignore_errors=True)
+            m.close()
+            vm_n, mism, log = core.vm_crosscheck(vcases, "c08", per_file=3, timeout=900)
+            if mism:
+                internal.append("extracted binary and vm_compute disagree (C08): %s %s" % (mism[:5], log[-300:]))
+        except Exception as e:  # noqa: BLE001
+            import traceback
+            internal.append("vm cross-check crashed: %s %s" % (type(e).__name__, traceback.format_exc()[-600:]))
+
+    run_.internal_errors += internal
+    shutil.rmtree(os.path.join(BASE, str(os.getpid())), ignore_errors=True)
+    for sub in os.listdir(BASE) if os.path.isdir(BASE) else []:
+        p = os.path.join(BASE, sub)
+        if os.path.isdir(p) and not os.listdir(p):
+            shutil.rmtree(p, ignore_errors=True)
+
+    n_channels = len(CHANNELS)
+    run_.coverage.update({
+        "evaluations": tot["runs"],
+        "cases": len(cases),
+        "channels": [c[0] for c in CHANNELS],
+        "distinct_nontrivial": len(distinct) * n_channels,
+        "rule": "graphs: pipe.gen_graph (general 2/3, schema-consistent 1/3; 1-2 namespaces) with well-typed integer/date "
+                "literals, plain / typed / language-tagged literals incl. non-ASCII and multi-word contents; three streams: "
+                "IRI instances only; blank-node instances (every 7th graph; compared only among the stable-label channels); "
+                "a plain literal holding '@' (every 11th; finding C08-F1).  Each graph goes through the %d channels with a "
+                "fresh random partition into 1..4 files / members / archives (empty files allowed for nt and tsv); switch "
+                "assignments round-robin, thresholds on the class-size grid, target classes every 5th case.  "
+                "distinct_nontrivial = (distinct documents with a class of >= 2 instances and a non-typing triple) x "
+                "channels" % n_channels,
+        "comparisons_with_reference": tot["compared"],
+        "comparisons_with_a_tie_in_the_graph": tot["tie_skipped"],
+        "blank_node_instance_runs_excluded": tot["excluded_bnode"],
+        "streams_corresponded_line_channels": tot["corr_checked"],
+        "pipeline_over_recorded_passes_corresponded": tot["run2_checked"],
+        "monitored_assumption_checks": tot["monitored"],
+        "outcome_distribution": outcomes,
+        "known_finding_hits": known_hits,
+        "plumbing_correspondence": static,
+        "vm_compute_crosschecked": vm_n,
+        "disagreements_model_vs_impl": len(corr_fail) + len(corr_static),
+        "assumption_violations": len(assume_fail),
+        "samples": [{"document": pipe.nt_doc(cases[i]["ts"])[:1200], "stream": cases[i]["stream"],
+                     "config": {k: v for k, v in cases[i]["cfg"].items() if v != pipe.base_cfg().get(k)},
+                     "outcomes": results[i].get("outcomes")}
+                    for i in sorted(set([0, len(cases) // 2, len(cases) - 1])) if cases and results and "internal" not in results[i]],
+        "exhaustive": False,
+        "impl_wall_s": round(time.time() - t0, 1),
+    })
+    run_.assumptions = [
+        "the N-Triples and streaming-Turtle document readers are external to this model (C06 / C07): the check plugs the "
+        "real single-document reader in as `read`; theorem (a) assumes the N-Triples reader line-compositional",
+        "gzip / xz / zipfile are the identity on content (monitored on every compressed file written)",
+        "what an rdflib channel delivers on a pass is a permutation of the graph up to an injective blank-node renaming "
+        "(monitored on both passes of every rdflib channel)",
+        "FileLineReader decodes with the locale's preferred encoding, UTF-8 here; Unicode-aware str.strip() on non-ASCII "
+        "white space is not modelled (generators avoid it at line edges)",
+        "CPython float() is a parameter of the model; the TSV correspondence sends only plain decimal numerals"]
+    return run_.finish(bs)
